@@ -2076,3 +2076,69 @@ func ruleDebugMetatableAndHuge(c *Ctx) {
 	c.Sites++
 	c.check(found && okc, R, "huge:is-positive-infinity", p.pos(fn.Pos()), "math.huge is math.Inf(+1)", "math.huge is not produced by math.Inf(+1): a finite constant (MaxFloat64) is not HUGE_VAL — math.huge == 1/0 is false")
 }
+
+// ruleTableArgs: F94. table.sort(t, nil) sorts with <: the comparator argument is type-checked only when
+// it is not nil. table.insert takes two or three arguments: evaluated for 1 and 4 arguments the function
+// must reach its error and neither Append nor Insert.
+func ruleTableArgs(c *Ctx) {
+	const R = "R18-lib"
+	p := c.P
+	if fn := c.need(R, "lua", "tableSort"); fn != nil {
+		g := p.G(fn)
+		cf := p.Fn("lua", "(*LState).CheckFunction")
+		get := p.Fn("lua", "(*LState).Get")
+		okc := len(callsTo(fn, cf)) > 0
+		for _, cl := range callsTo(fn, cf) {
+			guard := false
+			for _, cd := range g.CondsAtInstr(cl) {
+				b, ok := cd.V.(*ssa.BinOp)
+				if !ok {
+					continue
+				}
+				for _, gc := range callsTo(fn, get) {
+					if (b.X == ssa.Value(gc) || b.Y == ssa.Value(gc)) && strings.Contains(vkey(b), "LNil") && ((b.Op == token.NEQ && cd.Sense) || (b.Op == token.EQL && !cd.Sense)) {
+						guard = true
+					}
+				}
+			}
+			if !guard {
+				okc = false
+			}
+		}
+		c.Sites++
+		c.check(okc, R, "tableSort:nil-comparator-is-no-comparator", p.pos(fn.Pos()), "the comparator is checked to be a function only when it is not nil", "table.sort type-checks its second argument whenever one is passed: table.sort(t, nil) raises 'function expected, got nil' instead of sorting with <")
+	}
+	if fn := c.need(R, "lua", "tableInsert"); fn != nil {
+		gt := p.Fn("lua", "(*LState).GetTop")
+		raise := p.Fn("lua", "(*LState).RaiseError")
+		app, ins := p.Fn("lua", "(*LTable).Append"), p.Fn("lua", "(*LTable).Insert")
+		okc := true
+		for _, n := range []int64{1, 4, 5} {
+			p.computeNoReturn()
+			reach := reachGiven(fn, func(v ssa.Value) (aval, bool) {
+				if cl, ok := v.(*ssa.Call); ok && cl.Call.StaticCallee() == gt {
+					return aInt(n), true
+				}
+				return aval{}, false
+			}, p.isNoReturnCall)
+			raised, stored := false, false
+			for _, cl := range callsTo(fn, raise) {
+				if reach[cl] {
+					raised = true
+				}
+			}
+			for _, f2 := range []*ssa.Function{app, ins} {
+				for _, cl := range callsTo(fn, f2) {
+					if reach[cl] {
+						stored = true
+					}
+				}
+			}
+			if !raised || stored {
+				okc = false
+			}
+		}
+		c.Sites++
+		c.check(okc, R, "tableInsert:two-or-three-arguments", p.pos(fn.Pos()), "with 1, 4 or 5 arguments the function raises before it touches the table", "table.insert does not reject a call with more than three arguments (table.insert(t, 1, 2, 3) quietly inserts 2 at position 1); the manual defines the two- and the three-argument form only")
+	}
+}
